@@ -1,7 +1,9 @@
 package size
 
-//verif:harness C17 quick n=0..5
+//verif:harness C17 quick n=0..4
+//verif:harness C17 thorough n=5..5
 func H_C17_sizeText(n int) {
+	vMergeOutcomes()
 	in := vBytes("in", n)
 	snap := string(in)
 	pre := Size(vU64("pre"))
